@@ -6,15 +6,22 @@ import P2sh.Gen.Limits
 # C16 — header accessors decode the RFC-defined fields and layers
 
 * `props_table_agrees` — the model's property enumeration is the table generated from `src/code/prop.rs` / `rules.rs`.
-* `getter_is_slice` — for every numeric property of every layer except `tcp.flags`: the getter applied to the parsed
+* `getter_is_slice` — for every numeric property of every layer (TCP `flags` included): the getter applied to the parsed
   header is the big-endian bit slice `Rfc.layout` names; `record_getter_is_le_slice` for the little-endian record header;
   `dei_is_slice` for the one flag; `mac_text_is_reference`, `v4_text_is_reference` for address text.
-* `tcp_flags_low_byte_partial` + `tcp_flags_whole_word_witness` — `tcp.flags` is the whole 16-bit word: only its low
-  byte is the RFC 9293 control-bit field.
-* `payload_offset_fixed`, `ipv4_payload_offset`, `tcp_payload_offset_partial` + `tcp_payload_fixed_witness`.
-* `dispatch_agrees_partial` + `vlan_ipv6_rterr_witness` — `$n` dispatch is the RFC table except below a VLAN tag whose
-  EtherType is IPv6.
-* `named_getter_ignores_type_witness` — a named layer getter does not look at the type field.
+* `payload_offset` — every layer puts its payload where the header it parsed says the header ends (IHL·4, data offset·4,
+  fixed otherwise), never inside the fixed part; `truncated_is_error_object` — a layer is an error object exactly when
+  the capture ends before that point.
+* `dispatch_agrees` — what `$n` parses below a header is the layer the RFC table selects (null where it selects none).
+* `named_getter_agrees_dispatch`, `named_getter_null_on_mismatch` — a named layer property yields the layer `$n` would
+  descend into, and null (touching nothing) when the type field selects another one.
+
+Still open (see obligations.json): `v6_text_is_reference` (the kernel needs 19 minutes to `decide` the 65 536 groups; the
+IPv6 text is tied by the correspondence and oracle runs) and `$n` as a theorem over `descend`.
+
+History: before /repo commits aefd4e7, cc7014b and 7e7b19c, `tcp.flags` was the whole 16-bit word, the TCP payload offset
+was fixed at 20, `$n` raised an error below a VLAN tag with EtherType IPv6, and named getters ignored the type field; the
+theorems carried those exclusions (`*_partial`) and five witnesses.
 -/
 namespace P2sh.Props.C16
 open P2sh P2sh.Proto P2sh.Spec
@@ -50,16 +57,15 @@ def hdrLen : Rfc.Layer → Nat
 
 set_option maxHeartbeats 4000000 in
 set_option maxRecDepth 100000 in
-/-- **every numeric getter is the RFC bit slice** (all layers but the record header, all properties but `tcp.flags`) -/
+/-- **every numeric getter is the RFC bit slice** (all layers; the little-endian record header has its own theorem) -/
 theorem getter_is_slice (L : Rfc.Layer) (p : PP) (o w : Nat) (b : Nat → Nat) (hb : ∀ i, b i < 256)
-    (hlay : Rfc.layout L p = some (o, w)) (hk : Rfc.kindOf L p = .num) (hL : L ≠ .record)
-    (hx : ¬(L = .tcp ∧ p = .flags)) :
+    (hlay : Rfc.layout L p = some (o, w)) (hk : Rfc.kindOf L p = .num) (hL : L ≠ .record) :
     (parseAs L b).get p = some (.num (Rfc.bitSlice (hdrBytes b (hdrLen L)) o w)) := by
   have h0 := hb 0; have h1 := hb 1; have h2 := hb 2; have h3 := hb 3; have h4 := hb 4; have h5 := hb 5
   have h6 := hb 6; have h7 := hb 7; have h8 := hb 8; have h9 := hb 9; have h10 := hb 10; have h11 := hb 11
   have h12 := hb 12; have h13 := hb 13; have h14 := hb 14; have h15 := hb 15; have h16 := hb 16; have h17 := hb 17
   have h18 := hb 18; have h19 := hb 19
-  cases L <;> cases p <;> simp [Rfc.layout, Rfc.kindOf] at hlay hk hL hx <;> obtain ⟨rfl, rfl⟩ := hlay <;>
+  cases L <;> cases p <;> simp [Rfc.layout, Rfc.kindOf] at hlay hk hL <;> obtain ⟨rfl, rfl⟩ := hlay <;>
     simp [parseAs, hdrLen, Rfc.fixedSize, Hdr.get, EthHdr.get, VlanHdr.get, Ipv4Hdr.get, Ipv6Hdr.get, TcpHdr.get, UdpHdr.get,
       EthHdr.parse, VlanHdr.parse, Ipv4Hdr.parse, Ipv6Hdr.parse, TcpHdr.parse, UdpHdr.parse, u16be, u32be,
       Rfc.bitSlice, Rfc.beNat, byteAt_hdr, List.range, List.range.loop] <;> omega
@@ -109,24 +115,12 @@ theorem v4_text_is_reference (a : List Nat) (ha : ∀ x ∈ a, x < 256) : showV4
   rw [map_congr_bytes (f := dec8) (g := fun b => (Rfc.digits 10 0 b).map Rfc.digitL) dec8_ref a ha]
 
 
-/-! ### TCP flags: the whole 16-bit word -/
+/-- SYN/ACK with data offset 5 and reserved bits 0xA: `tcp.flags` is 0x12, `tcp.dataoff` is 5 -/
+example : let b : Nat → Nat := fun i => [0x1f,0x90,0,80, 0,0,0,1, 0,0,0,2, 0x5A,0x12,0xff,0xff, 0,0,0,0].getD i 0
+    (parseAs .tcp b).get .flags = some (.num 0x12) ∧ (parseAs .tcp b).get .dataoff = some (.num 5) ∧
+    Rfc.bitSlice (hdrBytes b 20) 104 8 = 0x12 := by decide
 
-/-- only the low byte of what `tcp.flags` returns is the control-bit field; the top nibble is the data offset -/
-theorem tcp_flags_low_byte_partial (b : Nat → Nat) (hb : ∀ i, b i < 256) :
-    (TcpHdr.parse b).flags % 256 = Rfc.bitSlice (hdrBytes b 20) 104 8 ∧
-    (TcpHdr.parse b).flags / 4096 = Rfc.bitSlice (hdrBytes b 20) 96 4 := by
-  have h12 := hb 12; have h13 := hb 13
-  constructor <;>
-    simp [TcpHdr.parse, u16be, Rfc.bitSlice, Rfc.beNat, byteAt_hdr, List.range, List.range.loop] <;> omega
-
-/-- a SYN/ACK segment with data offset 5: `flags` reads 0x5012, neither the 8 control bits (0x12) nor the 12 bits with the reserved ones -/
-theorem tcp_flags_whole_word_witness :
-    let b : Nat → Nat := fun i => [0x1f,0x90,0,80, 0,0,0,1, 0,0,0,2, 0x50,0x12,0xff,0xff, 0,0,0,0].getD i 0
-    (TcpHdr.parse b).get .flags = some (.num 0x5012) ∧
-    Rfc.bitSlice (hdrBytes b 20) 104 8 = 0x12 ∧ Rfc.bitSlice (hdrBytes b 20) 100 12 = 0x012 := by
-  decide
-
-/-! ### payload offsets -/
+/-! ### payload offsets, truncated layers -/
 
 theorem byteAt_drop (raw : List Nat) (s i : Nat) : Rfc.byteAt (raw.drop s) i = getB raw (s + i) := by
   simp [Rfc.byteAt, getB, List.getD_eq_getElem?_getD, List.getElem?_drop]
@@ -134,22 +128,49 @@ theorem byteAt_drop (raw : List Nat) (s i : Nat) : Rfc.byteAt (raw.drop s) i = g
 def kindLayer : LayerKind → Rfc.Layer
   | .eth => .ethernet | .vlan => .dot1q | .ipv4 => .ipv4 | .ipv6 => .ipv6 | .tcp => .tcp | .udp => .udp
 
-/-- every layer but TCP puts its payload where the header it parsed says the header ends -/
-theorem payload_offset_partial (raw : List Nat) (hw : wf raw) (k : LayerKind) (s off : Nat) (h : Hdr)
-    (hp : parseLayer raw k s = .obj (.layer h off .none)) (hk : k ≠ .tcp) :
-    off = s + Rfc.headerLen raw (kindLayer k) s := by
+/-- where the reference puts the end of the header that starts at `s`: the announced length, at least the fixed part -/
+def headerEnd (raw : List Nat) (k : LayerKind) (s : Nat) : Nat :=
+  s + max (Rfc.headerLen raw (kindLayer k) s) (Rfc.fixedSize (kindLayer k))
+
+theorem ipv4_hdrLen_rfc (raw : List Nat) (hw : wf raw) (s : Nat) :
+    Ipv4Hdr.hdrLen (rd raw s) = max (Rfc.headerLen raw .ipv4 s) 20 := by
   have h0 := getB_lt hw (s + 0)
+  simp [Ipv4Hdr.hdrLen, Rfc.headerLen, Rfc.bitSlice, Rfc.beNat, byteAt_drop, rd, List.range, List.range.loop] at *
+  omega
+
+theorem tcp_hdrLen_rfc (raw : List Nat) (hw : wf raw) (s : Nat) :
+    TcpHdr.hdrLen (rd raw s) = max (Rfc.headerLen raw .tcp s) 20 := by
+  have h12 := getB_lt hw (s + 12)
+  simp [TcpHdr.hdrLen, Rfc.headerLen, Rfc.bitSlice, Rfc.beNat, byteAt_drop, rd, List.range, List.range.loop] at *
+  omega
+
+/-- **every layer puts its payload where the header it parsed ends** -/
+theorem payload_offset (raw : List Nat) (hw : wf raw) (k : LayerKind) (s off : Nat) (h : Hdr) (inner : Obj)
+    (hp : parseLayer raw k s = .layer h off inner) : off = headerEnd raw k s := by
+  have e4 := ipv4_hdrLen_rfc raw hw s
+  have e6 := tcp_hdrLen_rfc raw hw s
   cases k <;> simp only [parseLayer] at hp <;> (repeat' split at hp) <;> cases hp <;>
-    simp [kindLayer, Rfc.headerLen, Rfc.fixedSize, Rfc.bitSlice, Rfc.beNat, byteAt_drop, Ipv4Hdr.parse, rd, List.range, List.range.loop] at * <;> omega
+    simp [headerEnd, kindLayer, Rfc.headerLen, Rfc.fixedSize, e4, e6]
 
-/-- TCP with data offset 6: the payload is said to start after 20 bytes, the header is 24 bytes long -/
-theorem tcp_payload_fixed_witness :
-    let raw : List Nat := [0x1f,0x90,0,80, 0,0,0,1, 0,0,0,2, 0x60,0x12,0xff,0xff, 0,0,0,0, 1,2,3,4, 0xaa,0xbb]
-    (match parseLayer raw .tcp 0 with | .obj (.layer _ off _) => some off | _ => none) = some 20 ∧
-    Rfc.headerLen raw .tcp 0 = 24 := by
-  decide
+/-- **a layer is the error object exactly when the capture ends before the end of its header** -/
+theorem truncated_is_error_object (raw : List Nat) (hw : wf raw) (k : LayerKind) (s : Nat) :
+    parseLayer raw k s = .err ↔ raw.length < headerEnd raw k s := by
+  have e4 := ipv4_hdrLen_rfc raw hw s
+  have e6 := tcp_hdrLen_rfc raw hw s
+  cases k
+  · simp only [parseLayer, headerEnd, kindLayer, Rfc.headerLen, Rfc.fixedSize]; split <;> simp <;> omega
+  · simp only [parseLayer, headerEnd, kindLayer, Rfc.headerLen, Rfc.fixedSize]; split <;> simp <;> omega
+  · simp only [parseLayer, headerEnd, kindLayer, Rfc.fixedSize, e4]; (repeat' split) <;> simp <;> omega
+  · simp only [parseLayer, headerEnd, kindLayer, Rfc.headerLen, Rfc.fixedSize]; split <;> simp <;> omega
+  · simp only [parseLayer, headerEnd, kindLayer, Rfc.fixedSize, e6]; (repeat' split) <;> simp <;> omega
+  · simp only [parseLayer, headerEnd, kindLayer, Rfc.headerLen, Rfc.fixedSize]; split <;> simp <;> omega
 
+/-- TCP with data offset 6: the payload starts after 24 bytes; with only 22 bytes captured the layer is an error object -/
+example : let raw : List Nat := [0x1f,0x90,0,80, 0,0,0,1, 0,0,0,2, 0x60,0x12,0xff,0xff, 0,0,0,0, 1,2,3,4, 0xaa,0xbb]
+    (match parseLayer raw .tcp 0 with | .layer _ off _ => some off | _ => none) = some 24 ∧ headerEnd raw .tcp 0 = 24 ∧
+    (parseLayer (raw.take 22) .tcp 0 matches .err) = true := by decide
 
+/-! ### dispatch -/
 
 def hdrLayer : Hdr → Rfc.Layer
   | .pcap _ => .record | .eth _ => .ethernet | .vlan _ => .dot1q | .ipv4 _ => .ipv4
@@ -160,79 +181,80 @@ def typeVal : Hdr → Nat
   | .eth h => h.ethertype | .vlan h => h.ethertype | .ipv4 h => h.proto | .ipv6 h => h.nh
   | _ => 0
 
-def dispLayer : Disp → Option Rfc.Layer
-  | .parse k => some (kindLayer k)
-  | _ => none
-
-/-- `$n` descends into the layer the RFC table selects, for every header except a VLAN tag whose EtherType is IPv6 -/
-theorem dispatch_agrees_partial (h : Hdr) (hne : ∀ ph, h ≠ .pcap ph)
-    (hx : ∀ v, h = .vlan v → v.ethertype ≠ 0x86DD) :
-    dispLayer (dispatch h) = Rfc.nextLayer (hdrLayer h) (typeVal h) ∧ dispatch h ≠ .rterr := by
+/-- **`$n` descends into the layer the RFC table selects** (null where the table has no entry) -/
+theorem dispatch_agrees (h : Hdr) (hne : ∀ ph, h ≠ .pcap ph) :
+    (dispatch h).map kindLayer = Rfc.nextLayer (hdrLayer h) (typeVal h) := by
   cases h with
   | pcap ph => exact absurd rfl (hne ph)
   | eth e =>
     simp only [dispatch, hdrLayer, typeVal]
     by_cases h1 : e.ethertype = 0x8100
-    · simp [h1, dispLayer, kindLayer, Rfc.nextLayer]
+    · simp [h1, kindLayer, Rfc.nextLayer]
     · by_cases h2 : e.ethertype = 0x0800
-      · simp [h2, dispLayer, kindLayer, Rfc.nextLayer]
+      · simp [h2, kindLayer, Rfc.nextLayer]
       · by_cases h3 : e.ethertype = 0x86DD
-        · simp [h3, dispLayer, kindLayer, Rfc.nextLayer]
-        · simp [h1, h2, h3, dispLayer]
+        · simp [h3, kindLayer, Rfc.nextLayer]
+        · simp [h1, h2, h3]
           unfold Rfc.nextLayer
           split <;> simp_all
   | vlan e =>
-    have hv := hx e rfl
     simp only [dispatch, hdrLayer, typeVal]
     by_cases h1 : e.ethertype = 0x8100
-    · simp [h1, dispLayer, kindLayer, Rfc.nextLayer]
+    · simp [h1, kindLayer, Rfc.nextLayer]
     · by_cases h2 : e.ethertype = 0x0800
-      · simp [h2, dispLayer, kindLayer, Rfc.nextLayer]
-      · simp [h1, h2, hv, dispLayer]
-        unfold Rfc.nextLayer
-        split <;> simp_all
+      · simp [h2, kindLayer, Rfc.nextLayer]
+      · by_cases h3 : e.ethertype = 0x86DD
+        · simp [h3, kindLayer, Rfc.nextLayer]
+        · simp [h1, h2, h3]
+          unfold Rfc.nextLayer
+          split <;> simp_all
   | ipv4 e =>
     simp only [dispatch, hdrLayer, typeVal]
     by_cases h1 : e.proto = 17
-    · simp [h1, dispLayer, kindLayer, Rfc.nextLayer]
+    · simp [h1, kindLayer, Rfc.nextLayer]
     · by_cases h2 : e.proto = 6
-      · simp [h2, dispLayer, kindLayer, Rfc.nextLayer]
+      · simp [h2, kindLayer, Rfc.nextLayer]
       · by_cases h3 : e.proto = 41
-        · simp [h3, dispLayer, kindLayer, Rfc.nextLayer]
-        · simp [h1, h2, h3, dispLayer]
+        · simp [h3, kindLayer, Rfc.nextLayer]
+        · simp [h1, h2, h3]
           unfold Rfc.nextLayer
           split <;> simp_all
   | ipv6 e =>
     simp only [dispatch, hdrLayer, typeVal]
     by_cases h1 : e.nh = 17
-    · simp [h1, dispLayer, kindLayer, Rfc.nextLayer]
+    · simp [h1, kindLayer, Rfc.nextLayer]
     · by_cases h2 : e.nh = 6
-      · simp [h2, dispLayer, kindLayer, Rfc.nextLayer]
-      · simp [h1, h2, dispLayer]
+      · simp [h2, kindLayer, Rfc.nextLayer]
+      · simp [h1, h2]
         unfold Rfc.nextLayer
         split <;> simp_all
-  | tcp e => simp [dispatch, dispLayer, hdrLayer, Rfc.nextLayer]
-  | udp e => simp [dispatch, dispLayer, hdrLayer, Rfc.nextLayer]
+  | tcp e => simp [dispatch, hdrLayer, Rfc.nextLayer]
+  | udp e => simp [dispatch, hdrLayer, Rfc.nextLayer]
 
-/-- below a VLAN tag whose EtherType is IPv6 `$n` asks the VLAN object for a property it does not have -/
-theorem vlan_ipv6_rterr_witness (v : VlanHdr) (h : v.ethertype = 0x86DD) :
-    (match dispatch (.vlan v) with | .rterr => true | _ => false) = true ∧
-    Rfc.nextLayer .dot1q v.ethertype = some .ipv6 ∧ layerProp (.vlan v) .ipv6 = none := by
-  simp [dispatch, h, Rfc.nextLayer, layerProp]
+/-- IPv6 below a VLAN tag -/
+example : dispatch (.vlan { priority := 0, dei := false, vid := 1, ethertype := 0x86DD }) = some .ipv6 := by decide
 
-/-- an ARP frame (EtherType 0x0806, 28 bytes after the header): `eth.ipv4` parses the ARP body as an IPv4 header
-although the type field does not select IPv4 (there the reference gives no layer at all) -/
-theorem named_getter_ignores_type_witness :
-    let raw : List Nat := [0,1,2,3,4,5, 6,7,8,9,10,11, 8,6] ++ List.replicate 28 1
-    let r := (Pkt.new { sec := 0, usec := 0, caplen := 42, wirelen := 42 } raw).run [.get .pkt [.eth, .ipv4]]
-    (match r.2 with | [.ok (.other k)] => k | _ => "") = "ipv4" ∧ Rfc.nextLayer .ethernet 0x0806 = none := by
-  decide
+/-- **a named layer property whose name agrees with the type field yields the layer `$n` descends into** -/
+theorem named_getter_agrees_dispatch (h : Hdr) (p : PP) (k : LayerKind) (hne : ∀ ph, h ≠ .pcap ph)
+    (hl : layerProp h p = some k) (hm : typeMismatch h k = false) : dispatch h = some k := by
+  cases h <;> cases p <;> simp [layerProp] at hl <;> subst hl <;>
+    simp [typeMismatch, typeWanted, dispatch] at hm ⊢ <;> first | simp [hm] | exact absurd rfl (hne _)
 
-/-- and the wrongly parsed object stays cached: a later `eth.vlan` returns the IPv4 object -/
-theorem stale_inner_witness :
-    let raw : List Nat := [0,1,2,3,4,5, 6,7,8,9,10,11, 0x81,0] ++ List.replicate 28 1
-    let r := (Pkt.new { sec := 0, usec := 0, caplen := 42, wirelen := 42 } raw).run [.get .pkt [.eth, .ipv4], .get .pkt [.eth, .vlan]]
-    (match r.2 with | [_, .ok (.other k)] => k | _ => "") = "ipv4" := by
+/-- **and null, leaving the object as it is, when the type field selects another layer** -/
+theorem named_getter_null_on_mismatch (raw : List Nat) (h : Hdr) (off : Nat) (inner : Obj) (p : PP) (k : LayerKind)
+    (cont : Obj → Obj × StepOut) (last : Bool) (hl : layerProp h p = some k) (hm : typeMismatch h k = true) :
+    getProp raw p cont last (.layer h off inner) = (.layer h off inner, (cont (.val .null)).2) := by
+  simp [getProp, hl, hm]
+
+/-- an ARP frame: `eth.ipv4` is null and `eth.vlan` afterwards still is; an IPv4 frame: `eth.vlan` is null, `eth.ipv4` the layer -/
+example :
+    let arp : List Nat := [0,1,2,3,4,5, 6,7,8,9,10,11, 8,6] ++ List.replicate 28 1
+    let ip : List Nat := [0,1,2,3,4,5, 6,7,8,9,10,11, 8,0, 0x45] ++ List.replicate 27 1
+    let show_ (o : Out) : String := match o with | .ok (.other k) => k | .ok .null => "null" | _ => "?"
+    ((Pkt.new { sec := 0, usec := 0, caplen := 42, wirelen := 42 } arp).run [.get .pkt [.eth, .ipv4], .get .pkt [.eth, .vlan]]).2.map show_
+      = ["null", "null"] ∧
+    ((Pkt.new { sec := 0, usec := 0, caplen := 42, wirelen := 42 } ip).run [.get .pkt [.eth, .vlan], .get .pkt [.eth, .ipv4]]).2.map show_
+      = ["null", "ipv4"] := by
   decide
 
 end P2sh.Props.C16
